@@ -89,3 +89,47 @@ Theorem C06_enum_error_position_inside : forall lc bs c p,
   snd (EnumScanner.scan lc bs) = EnumScanner.Err c p -> (N.to_nat p < List.length bs)%nat.
 Proof. exact EnumProofs.enum_error_position_inside. Qed.
 Print Assumptions C06_enum_error_position_inside.
+
+(* Property C06 for the SCHEMA scanner (model SchemaScan/SchemaScanner.v).  Proofs live in
+   SchemaScan/SchemaProofs.v.
+   Spans: every delivered event begins inside the text (begin < size) and ends at most at the size:
+   events delivered while bytes are read end inside the text; an event closed by the end-of-input
+   rule after another one (InlineAnnotationEnd after InlineAnnotationTextEnd) ends at offset = size.
+   (begin <= end does not hold: an annotation text that is closed by the byte that opens it has
+   end = begin - 1.) *)
+From JS Require SchemaScan.SchemaScanner SchemaScan.SchemaProofs.
+
+Theorem C06_schema_spans_inside : forall (lc : bool) (bs : Wire.bytes) evs o,
+  SchemaScanner.scan lc bs = (evs, o) ->
+  Forall (fun e => (N.to_nat (SchemaScanner.e_begin e) < List.length bs)%nat /\
+                   (N.to_nat (SchemaScanner.e_end e) <= List.length bs)%nat) evs.
+Proof. exact SchemaProofs.schema_spans_inside. Qed.
+Print Assumptions C06_schema_spans_inside.
+
+(* On a text without the bytes / # @ (no comment, annotation or shortcut can start), when the
+   schema scanner reaches the end of input without error, its events other than NewLine, mapped
+   to the JSON scanner's event type (same type, same begin, same end), are exactly the events of
+   the JSON scanner model for the same text. *)
+Theorem C06_schema_scanner_agrees_with_json_scanner : forall (bs : Wire.bytes) evs,
+  SchemaScanner.scan false bs = (evs, SchemaScanner.Done) -> SchemaProofs.plain bs = true ->
+  map SchemaProofs.to_json_ev (filter (fun e => negb (SchemaProofs.is_newline_ev e)) evs)
+  = fst (Scanner.scan false bs).
+Proof. exact SchemaProofs.schema_events_agree_with_json. Qed.
+Print Assumptions C06_schema_scanner_agrees_with_json_scanner.
+
+(* non-vacuity: the corner cases of the spans, and an instance of the agreement *)
+Example C06_schema_examples :
+  (* "1 // abc": the annotation is closed by the end of input, InlineAnnotationEnd ends at 8 = size *)
+  (let '(evs, o) := SchemaScanner.scan false (of_string "1 // abc"%string) in
+   (map (fun e => (SchemaScanner.ev_code (SchemaScanner.e_type e), SchemaScanner.e_begin e, SchemaScanner.e_end e))
+        (skipn 4 evs), o)) =
+  ([(15, 5, 7); (13, 2, 8)]%N, SchemaScanner.Done) /\
+  (* "//" + LF: the annotation text opened and closed by the LF has end = begin - 1 *)
+  (let '(evs, o) := SchemaScanner.scan false (of_string "//"%string ++ [x0a]) in
+   map (fun e => (SchemaScanner.ev_code (SchemaScanner.e_type e), SchemaScanner.e_begin e, SchemaScanner.e_end e)) evs) =
+  [(12, 0, 1); (14, 2, 2); (15, 2, 1); (13, 0, 1); (20, 2, 2)]%N /\
+  (let bs := of_string "{""a"": [1," ++ [x0a] ++ of_string " null]}" in
+   SchemaProofs.plain bs = true /\ snd (SchemaScanner.scan false bs) = SchemaScanner.Done /\
+   List.length (fst (SchemaScanner.scan false bs)) = 17%nat /\
+   List.length (fst (Scanner.scan false bs)) = 16%nat).
+Proof. vm_compute. repeat split; reflexivity. Qed.
